@@ -114,3 +114,86 @@ def follow_chain(B, operand, chain):
             continue
         cur = term["args"][0]
     return True, term
+
+
+def copy_of_local(B, o, target, depth=8):
+    """operand o is (a move/copy/clone of) local `target`"""
+    if o["k"] not in ("copy", "move") or depth <= 0:
+        return False
+    p = o["p"]
+    if any(isinstance(e, dict) and "f" in e for e in p["p"]):
+        return False
+    l = p["l"]
+    if l == target:
+        return True
+    defs = B.defs.get(l, [])
+    if not defs:
+        return False
+    for (bi, si, kind, payload) in defs:
+        if kind == "assign":
+            rv = payload["rv"]
+            if rv["k"] == "use":
+                if not copy_of_local(B, rv["o"], target, depth - 1):
+                    return False
+            elif rv["k"] == "ref":
+                if not copy_of_local(B, {"k": "copy", "p": rv["p"]}, target, depth - 1):
+                    return False
+            else:
+                return False
+        elif kind == "call":
+            w, r = mir.callee_of(payload)
+            if not q.ends(r or w or "", "Clone::clone", "clone") or not copy_of_local(B, payload["args"][0], target, depth - 1):
+                return False
+        else:
+            return False
+    return True
+
+
+def actor_cell(F, R, rule, B, arms, var, set_variant, set_field, get_variant, label):
+    """one state cell of an actor task: `var` is written only in arm `set_variant`, with the message's field `set_field` (as a whole),
+    and arm `get_variant` replies (a clone of) `var`"""
+    ls = [i for i, l in enumerate(B.locals) if l.get("name") == var and not l.get("name", "").startswith("_")]
+    # the user variable is the first local of that name (later ones are pattern bindings in other arms)
+    fid = B.fn["id"]
+    if not ls:
+        R.fail(rule, "%s:%s:cell:%s:missing" % (rule, fid, var), "-", "actor variable `%s` not found" % var)
+        return
+    l = ls[0]
+    det, ok = [], True
+
+    def arm_of(bi):
+        a = [n for n, x in arms.items() if bi in x[2] and all(bi not in o[2] for n2, o in arms.items() if n2 != n)]
+        return a[0] if a else None
+    n_set = 0
+    for (bi, si, kind, payload) in B.defs[l]:
+        a = arm_of(bi)
+        if a is None and not any(bi in x[2] for x in arms.values()):
+            det.append("init")
+            continue
+        org = B.origins(payload["rv"]["o"]) if kind == "assign" and payload["rv"]["k"] == "use" else \
+            (B.origins(payload["args"][0]) if kind == "call" and payload.get("args") else set())
+        from_msg = bool(org) and all(o[0] == "call" and q.ends(o[1], "Receiver::recv") and tuple(o[3][-2:]) == ("@" + set_variant, set_field)
+                                     for o in org)
+        if a == set_variant and from_msg:
+            n_set += 1
+            det.append("%s.%s" % (set_variant, set_field))
+        else:
+            ok = False
+            det.append("written in arm %s from %s" % (a, sorted(map(str, org))))
+    ok = ok and n_set >= 1
+    # the write is unconditional within the Set arm: no way from the arm's entry to its reply around it
+    sa = arms.get(set_variant)
+    if ok and sa:
+        wblocks = [bi for (bi, si, kind, payload) in B.defs[l] if arm_of(bi) == set_variant]
+        ssends = [b for b in sa[2] if B.blocks[b]["term"]["k"] == "call" and
+                  q.ends(mir.callee_of(B.blocks[b]["term"])[0], "oneshot::Sender::send") and arm_of(b) == set_variant]
+        if not ssends or B.path([sa[1]], ssends, cut_blocks=wblocks) is not None:
+            ok = False
+            det.append("the write in %s is conditional (or the arm does not reply)" % set_variant)
+    ga = arms.get(get_variant)
+    sends = [b for b in (ga[2] if ga else []) if B.blocks[b]["term"]["k"] == "call" and
+             q.ends(mir.callee_of(B.blocks[b]["term"])[0], "oneshot::Sender::send") and arm_of(b) == get_variant]
+    rep = bool(sends) and all(copy_of_local(B, B.blocks[b]["term"]["args"][1], l) for b in sends)
+    R.check(ok and rep, rule, "%s:%s:cell:%s" % (rule, fid, var), q.where(B, ga[1]) if ga else "-",
+            "%s: `%s` is written only by %s (with the message's %s) and %s replies a copy of it" % (label, var, set_variant, set_field, get_variant),
+            "%s: writes of `%s`: %s; %s replies the variable: %s" % (label, var, det, get_variant, rep))
